@@ -47,7 +47,7 @@ def main():
         tier = args[args.index('--tier') + 1]
     slot = args[args.index('--slot') + 1] if '--slot' in args else name
     wt = '/tmp/sv-' + slot
-    tgt = '/tmp/sv-target'
+    tgt = '/tmp/sv-target-' + slot
     conf = dict(when=time.strftime('%Y-%m-%d %H:%M'), repo_head=sh(['git', '-C', '/repo', 'rev-parse', '--short', 'HEAD'])[1].strip())
     sh(['git', '-C', '/repo', 'worktree', 'remove', '--force', wt])
     rc, out = sh(['git', '-C', '/repo', 'worktree', 'add', '--detach', wt, 'HEAD'])
@@ -101,17 +101,20 @@ def main():
             if needs_bins:
                 sh(binbuild, cwd=wt, env={'CARGO_TARGET_DIR': tgt})
             rc1, out1 = sh(['cargo', 'test', '--offline', '--test', 'demo'], cwd=dc, env=env)
-            sh(['git', 'stash'], cwd=wt)
+            sh(['git', 'apply', '-R', os.path.join(d, 'patch.diff')], cwd=wt)   # NOT git stash: the stash is shared between worktrees
+            assert sh(['git', 'status', '--porcelain'], cwd=wt)[1].strip() == '', 'worktree not clean after reverting the patch'
             if needs_bins:
                 sh(binbuild, cwd=wt, env={'CARGO_TARGET_DIR': tgt})
             rc0, out0 = sh(['cargo', 'test', '--offline', '--test', 'demo'], cwd=dc, env=env)
-            sh(['git', 'stash', 'pop'], cwd=wt)
+            rcp, outp = sh(['git', 'apply', os.path.join(d, 'patch.diff')], cwd=wt)
+            assert rcp == 0, 'could not re-apply the patch: ' + outp
             conf['demo_with_change'] = 'fail' if rc1 != 0 else 'pass'
             conf['demo_without_change'] = 'pass' if rc0 == 0 else 'fail'
             if rc0 != 0:
                 print(out0[-1500:])
             print("demo: with change %s, without %s" % (conf['demo_with_change'], conf['demo_without_change']))
             shutil.rmtree(dc, ignore_errors=True)
+        conf['diff_at_check'] = sh(['git', 'diff', '--stat'], cwd=wt)[1].strip().splitlines()[-1:]
         checks = {}
         for pid in props:
             t0 = time.time()
